@@ -111,3 +111,66 @@ Print Assumptions report_refs_wellformed.
 Print Assumptions report_steps_sound.
 Print Assumptions report_covers_externals.
 Print Assumptions report_concludes_top.
+
+(* Composition with the solver (Proofs/SolverReportEndToEnd.v): the hypotheses of the theorems above ("a derivation tree
+   whose derived nodes follow from their causes", consistent shared ids) HOLD of every tree the solver model returns, so
+   the default text report of every NoSolution - of a resolve run on a well-behaved trace, and of the generating model
+   against any provider serving a registry - is total, numbered consecutively, cites only earlier lines that conclude
+   what is cited, every explaining line is entailed by what it cites (for every admissible-assignment predicate), covers
+   every external fact, ends with the top node, and the top node forbids the root.  New bridge: C03's "same shared id =>
+   same subtree" gives [shared_consistent] ([unique_ids_shared_consistent]). *)
+From Coq Require Import List NArith ZArith Bool.
+From PG Require Import Model.VS Model.Term Model.Solver Model.Registry Model.Report Proofs.VSLaws Proofs.SolverSem Proofs.SolverTree Proofs.SolverGen Proofs.SolverEndToEnd Proofs.SolverReportEndToEnd.
+Import ListNotations.
+Section C08_solver.
+  Context {VS Vr : Type} (O : VSOps VS Vr) (L : VSLawful O) (veqb : Vr -> Vr -> bool).
+  Context (reg : registry (VS := VS) (Vr := Vr)) (r : pkg) (rv : Vr).
+  Notation step := (@step VS Vr).
+  Notation event := (@event VS Vr).
+  Notation tprovider := (@tprovider VS Vr).
+
+  Theorem resolve_nosolution_report_is_sound_proof :
+    reg_wf O L reg -> (forall a b, veqb a b = true -> a = b) ->
+    forall fuel tr t st log k,
+      WellBehaved O reg tr -> resolve O veqb fuel r rv tr = (ONoSolution t, st, log, k) ->
+      exists l, report_steps t = RSteps l
+        (* numbers consecutive from 1, at most one per line *)
+        /\ (nums_of l = seq 1 (length (nums_of l)) /\ Forall (fun s : step => length (s_nums s) <= 1) l)
+        (* every (r) reference points to exactly one earlier line, which carries only r and concludes the cited terms *)
+        /\ (forall l1 s l2 n tr', l = l1 ++ s :: l2 -> In (n, tr') (cited (s_kind s)) ->
+              exists la s' lb, l1 = la ++ s' :: lb /\ s_nums s' = [n] /\ s_concl s' = tr'
+                               /\ forall s'', In s'' (la ++ lb ++ s :: l2) -> ~ In n (s_nums s''))
+        (* every explaining line is entailed by what it cites, on every set of admissible assignments *)
+        /\ (forall (adm : @assignment Vr -> Prop) l1 s l2, l = l1 ++ s :: l2 -> is_explain s = true ->
+              (uses_prev (s_kind s) = true -> exists p, hd_error (rev l1) = Some p /\ s_kind p <> KBlank)
+              /\ entailed_on O adm (s_concl s) (premises_of O s (hd_error (rev l1))))
+        (* every external fact of the tree is cited, and every one of them is true of the registry *)
+        /\ incl (leaves t) (cited_exts l)
+        (* the last line concludes the top node *)
+        /\ (exists l0 s, l = l0 ++ [s] /\ s_kind s <> KBlank
+              /\ match t with TDerived ts _ _ _ => s_concl s = ts | TExternal e => s_kind s = KOnlyExternal e end)
+        (* the tree is a proof (leaves true of the registry, nodes entailed) whose top node forbids the root *)
+        /\ tree_ok O reg r rv t /\ top_forbids_root O r rv t.
+  Proof. exact (nosolution_report_is_sound_proof O L veqb reg r rv). Qed.
+
+  Theorem provider_nosolution_report_is_sound_proof :
+    reg_wf O L reg ->
+    (forall a b, veqb a b = true -> a = b) -> (forall v, veqb v v = true) -> (forall s, vs_eqb O s s = true) ->
+    forall (pg : tprovider) fuel res tr t,
+      serves O reg pg -> resolve_g O veqb pg fuel r rv = (res, tr) -> fst (fst (fst res)) = ONoSolution t ->
+      exists l, report_steps t = RSteps l
+        /\ (nums_of l = seq 1 (length (nums_of l)) /\ Forall (fun s : step => length (s_nums s) <= 1) l)
+        /\ (forall l1 s l2 n tr', l = l1 ++ s :: l2 -> In (n, tr') (cited (s_kind s)) ->
+              exists la s' lb, l1 = la ++ s' :: lb /\ s_nums s' = [n] /\ s_concl s' = tr'
+                               /\ forall s'', In s'' (la ++ lb ++ s :: l2) -> ~ In n (s_nums s''))
+        /\ (forall (adm : @assignment Vr -> Prop) l1 s l2, l = l1 ++ s :: l2 -> is_explain s = true ->
+              (uses_prev (s_kind s) = true -> exists p, hd_error (rev l1) = Some p /\ s_kind p <> KBlank)
+              /\ entailed_on O adm (s_concl s) (premises_of O s (hd_error (rev l1))))
+        /\ incl (leaves t) (cited_exts l)
+        /\ (exists l0 s, l = l0 ++ [s] /\ s_kind s <> KBlank
+              /\ match t with TDerived ts _ _ _ => s_concl s = ts | TExternal e => s_kind s = KOnlyExternal e end)
+        /\ tree_ok O reg r rv t /\ top_forbids_root O r rv t.
+  Proof. exact (resolve_g_nosolution_report_is_sound_proof O L veqb reg r rv). Qed.
+End C08_solver.
+Print Assumptions resolve_nosolution_report_is_sound_proof.
+Print Assumptions provider_nosolution_report_is_sound_proof.
